@@ -1355,7 +1355,21 @@ func (r *Run) callBuiltin(fr *frame, name string, args []Value) Value {
 					}
 				}
 			}
-			return SliceV{Data: append(s.Data, e.Data...)}
+			// Go semantics of growth: when the capacity does not suffice, the elements move to a new array, and struct
+			// and array elements are values -- the copies must not share their fields with the old array (a pointer
+			// taken into the old array goes stale)
+			add := make([]Value, len(e.Data))
+			for i := range e.Data {
+				add[i] = copyVal(e.Data[i])
+			}
+			if len(s.Data)+len(add) > cap(s.Data) {
+				grown := make([]Value, len(s.Data), growCap(cap(s.Data), len(s.Data)+len(add)))
+				for i := range s.Data {
+					grown[i] = copyVal(s.Data[i])
+				}
+				return SliceV{Data: append(grown, add...)}
+			}
+			return SliceV{Data: append(s.Data, add...)}
 		case StrV:
 			var data []Value
 			for _, b := range e.bytesTerms() {
@@ -1665,4 +1679,17 @@ func sliceHybrid(x StrV, l int, hasHi bool, h int) Value {
 		panic(unsupported("slice bound inside opaque atom"))
 	}
 	return concatStr(strFromBytes(lead[l:]), rest)
+}
+
+// growCap: the runtime's growth rule for small slices (doubling up to 256 elements, then about 1.25x), rounded as the
+// runtime does not matter here: only "a new array whenever the old capacity does not suffice" is modelled faithfully
+func growCap(oldCap, need int) int {
+	c := oldCap * 2
+	if oldCap >= 256 {
+		c = oldCap + oldCap/4 + 192
+	}
+	if c < need {
+		c = need
+	}
+	return c
 }
